@@ -41,6 +41,7 @@ bool LoadScenario(const js::J& j, Scenario* s, string* err) {
       st.oo = sj["oo"].strs();
       st.val = sj["val"].strs();
       st.cmd = sj["cmd"].str();
+      st.desc = sj["desc"].str();
       st.spec = ParseCmd(st.cmd);
       if (!st.phony && !st.spec.valid) { *err = "bad cmd for " + st.id + ": " + st.cmd; return false; }
       st.rule = sj["rule"].str();
